@@ -99,6 +99,16 @@ gen_conv1d(Src& s, int size)
       kpat = 2;
       bc = 0;
     }
+  // domain audit: the documented trivial filter (empty kernel, or the single coefficient 1 at index 0: is_trivial()) has a code
+  // path of its own with its own boundary handling; with an output range that leaves the input it was generated in < 0.2 % of the cases
+  const bool trivial_steer = !sym && s.chance(1, 16);
+  if (trivial_steer)
+    {
+      klen = s.coin() ? 0 : 1;
+      kmin = 0;
+      kpat = 3;
+      bc = s.coin() ? 1 : 0;
+    }
   int dlen = s.chance(1, 5) ? int(s.range(1, 3)) : int(s.range(1, scaled(10, 60, size)));
   if (bc == 0 && s.chance(1, 40))
     dlen = 0;
@@ -110,8 +120,8 @@ gen_conv1d(Src& s, int size)
   c["bc"] = bc;
   c["dmin"] = dmin;
   c["dlen"] = dlen;
-  c["mode"] = s.coin() ? 1 : 0;
-  if (sym || s.chance(1, 3))
+  c["mode"] = trivial_steer ? 0 : s.coin() ? 1 : 0;
+  if (sym || (!trivial_steer && s.chance(1, 3)))
     {
       c["omin"] = dmin;
       c["olen"] = dlen;
@@ -137,7 +147,10 @@ gen_dftconv(Src& s, int size)
   const int maxlg = D == 1 ? scaled(5, 10, size) : D == 2 ? scaled(3, 5, size) : 3;
   const bool kfull = s.chance(1, 3);
   const bool aim_noalias = s.chance(1, 2); // steer towards the property's condition (padded length >= 2 x data length, no wrap-around)
-  const bool same_out = aim_noalias || s.coin();
+  // domain audit: data (and output) on exactly the padding range 0..P-1 take the filter's direct branch (no copy to and from
+  // periodic indices); generated in 0.1 % of the cases before
+  const bool full_range = !aim_noalias && s.chance(1, 5);
+  const bool same_out = aim_noalias || (full_range && s.chance(2, 3)) || (!full_range && s.coin());
   json lgP = json::array(), Kmin = json::array(), a = json::array(), b = json::array(), dmin = json::array(), dlen = json::array(), omin = json::array(),
        olen = json::array();
   for (int d = 0; d < D; ++d)
@@ -148,7 +161,12 @@ gen_dftconv(Src& s, int size)
       int dl = s.coin() ? int(s.range(1, std::max(1, P / 2))) : int(s.range(1, P));
       if (aim_noalias)
         dl = int(s.range(1, std::max(1, P / 2)));
-      const int dm = s.chance(1, 3) ? 0 : int(s.range(-P - 2, P + 2));
+      int dm = s.chance(1, 3) ? 0 : int(s.range(-P - 2, P + 2));
+      if (full_range)
+        {
+          dl = P;
+          dm = 0;
+        }
       int km = s.chance(1, 3) ? 0 : s.chance(1, 2) ? -(P / 2) : int(s.range(-P - 3, P + 3));
       int al, bl;
       if (aim_noalias)
@@ -310,6 +328,23 @@ gen_gauss(Src& s, int size)
     }
   c["normalise"] = s.chance(3, 4);
   c["via_image"] = s.chance(1, 3);
+  // domain audit: (a) no filtering in any direction (every FWHM 0: 0.05 % of the cases before), (b) the constructor overload
+  // taking ONE fwhm and ONE max_kernel_size for all directions (never used before)
+  if (s.chance(1, 30))
+    for (int d = 0; d < 3; ++d)
+      fw[d] = 0.;
+  const bool scalar_ctor = s.chance(1, 6);
+  if (scalar_ctor)
+    {
+      c["via_image"] = false;
+      for (int d = 1; d < 3; ++d)
+        {
+          vox[d] = vox[0];
+          fw[d] = fw[0];
+          mk[d] = mk[0];
+        }
+    }
+  c["scalar_ctor"] = scalar_ctor;
   const int pat = s.pick(std::vector<int>{ 0, 1, 2, 5, 5, 5 });
   c["pat"] = pat;
   if (pat == 5 && s.chance(4, 5))
